@@ -31,6 +31,18 @@ class Al2(DataClassDictMixin):
     d: int = 3
 
 @dataclass
+class NtMix(DataClassDictMixin):
+    a: NT = field(metadata={"serialize": "as_list", "deserialize": "as_list"})
+    b: NT = NT(1, "x")
+    class Config(BaseConfig):
+        namedtuple_as_dict = True
+
+@dataclass
+class NtMix2(DataClassDictMixin):
+    a: NT = field(metadata={"serialize": "as_dict", "deserialize": "as_dict"})
+    b: NT = NT(1, "x")
+
+@dataclass
 class TwoGen(DataClassDictMixin):
     x: Gen[int]
     y: Gen[str]
@@ -45,7 +57,7 @@ class TwoSame:
     p: SameA
     q: SameB
 '''
-EXTRA = [("al", "Al"), ("al2", "Al2"), ("lit_1_true", "Literal[1, True]"), ("lit_0_false", "Literal[0, False, 'off']"),
+EXTRA = [("ntmix", "NtMix"), ("ntmix2", "NtMix2"), ("al", "Al"), ("al2", "Al2"), ("lit_1_true", "Literal[1, True]"), ("lit_0_false", "Literal[0, False, 'off']"),
          ("lit_true_1", "Literal[True, 1, 2]"), ("twogen", "TwoGen"), ("twosame", "TwoSame"), ("dict_int", "Dict[int, str]"),
          ("dict_bool", "Dict[bool, int]"), ("dict_float", "Dict[float, int]"), ("dict_enum", "Dict[Num, int]"),
          ("tstar3", "Tuple[int, Unpack[Tuple[str, str]], float]"), ("tstar4", "Tuple[Unpack[Tuple[int, ...]], str]"),
@@ -74,7 +86,7 @@ def harnesses(tier, seed):
             continue  # typing.Self is not supported by the schema generator at all (raises TypeError): outside C06, see C20
         for variant in variants:
             if tier == "quick" and variant == "oapi" and not any(
-                    k in s.texpr for k in ("Mix", "Plain", "Inh", "Gen", "Al", "Two", "NT", "TDict", "OptD", "SelfRef", "Lvl")):
+                    k in s.texpr for k in ("Mix", "Plain", "Inh", "Gen", "Al", "Two", "NT", "TDict", "OptD", "SelfRef", "Lvl", "Nt", "OuterG")):
                 continue  # without dataclasses the OpenAPI variant differs from Draft 2020-12 only in the dialect URI
             try:
                 probe(s, variant)
